@@ -494,8 +494,10 @@ def run(ch, idx, tier):
                     try:
                         P.run_sim(q_, progset, instr, store_results=True, result_name="named run")
                         bump("probe:second_stored_run_under_the_same_name")
-                    except at.BadInitialization:
-                        pass
+                    except Exception:
+                        # the touched-up copy is the harness's own construction and may be an invalid request (e.g. a halved
+                        # duration next to a saved initial state): a refusal of it is not judged
+                        bump("second_stored_run_refused")
             elif op == "build":
                 M = amodel.Model(P.settings, P.framework, parset, progset, instr)
             elif op == "deepcopy":
